@@ -115,6 +115,14 @@ def classify_arg(sym, t, fb=None):
         vals = sorted(x[1] for x in t[2] if x[0] == "const" and isinstance(x[1], int))
         if vals == [0, 1]:
             return "bool"
+    if t[0] == "bin" and t[1] in ("Eq", "Ne", "Gt", "Ge", "Lt", "Le"):
+        # a flag computed from the body's `num` (its value per case is decided by _enable_mapping)
+        for x, y in ((t[2], t[3]), (t[3], t[2])):
+            while x[0] in ("cast", "ref", "deref"):
+                x = x[1]
+            b, f = field_of(x)
+            if f == "num" and _is_body(b) and y[0] == "const":
+                return "bool"
     return "?" + show(orig)[:60]
 
 
@@ -270,25 +278,53 @@ def d1d2(fb, chk, tag):
 
 
 def _enable_mapping(fb, m, bb):
-    """SET_VRING_ENABLE: num == 1 -> true, num == 0 -> false (path facts on the bool's definitions)."""
+    """SET_VRING_ENABLE: the handler is reached only with num in {0, 1} and receives num != 0.  Decided by cases: the facts
+    that hold at the call (or, when the flag is a merge of several definitions, at each definition) must bound `num` to a
+    finite set, and the flag expression is evaluated for every value of that set; the resulting map must be {0: false,
+    1: true} exactly."""
     t = m.cfg.blocks[bb]["term"]
     op = t["args"][2]
-    if op["k"] not in ("copy", "move"):
-        return False
-    l, defs = m.sym.source_defs(op["pl"]["l"])
-    seen = {}
-    for d in defs:
-        if d[0] != "assign":
+    cases = {}
+
+    def bound(atoms):
+        for a in atoms:
+            leaf = S = None
+            if a[0] == "in" and not a[3]:
+                leaf, S = a[1], set(a[2])
+            elif a[0] == "cmp" and a[1] in ("Le", "Lt"):
+                k = const_eval(fb, m.sym, a[3])
+                if k is not None and 0 <= k <= 4:
+                    leaf, S = a[2], set(range(0, k + (1 if a[1] == "Le" else 0)))
+            if leaf is None:
+                continue
+            x = leaf
+            while x[0] in ("cast", "ref", "deref"):
+                x = x[1]
+            if field_of(x)[1] == "num" and all(isinstance(v, int) for v in S):
+                return x, S
+        return None, None
+
+    def add(atoms, term):
+        leaf, S = bound(atoms)
+        if leaf is None:
             return False
-        val = m.sym.rvalue(d[3])
-        if val[0] != "const":
-            return False
-        for a in m.atoms_at(d[1]):
-            if a[0] == "in" and not a[3] and len(a[2]) == 1:
-                b, f = field_of(a[1])
-                if f == "num":
-                    seen[next(iter(a[2]))] = val[1]
-    return seen == {1: 1, 0: 0}
+        for v in S:
+            val = const_eval(fb, m.sym, term, env={leaf: v, ("deref", leaf): v})
+            if val is None or cases.get(v, val) != val:
+                return False
+            cases[v] = val
+        return True
+
+    if op["k"] in ("copy", "move"):
+        if add(m.atoms_at(bb), m.sym.operand(op)):
+            return cases == {1: 1, 0: 0}
+        cases.clear()
+        l, defs = m.sym.source_defs(op["pl"]["l"])
+        for d in defs:
+            if d[0] != "assign" or not add(m.atoms_at(d[1]), m.sym.rvalue(d[3])):
+                return False
+        return cases == {1: 1, 0: 0}
+    return False
 
 
 # ---------------------------------------------------------------------------- D3
@@ -408,7 +444,7 @@ def d4(fb, chk, tag):
                 out.append((bb, t, m.atoms_at(bb), args))
         return m, out
 
-    def has_cmp(atoms, op, lname, rname=None, rconst=None, fb_=fb, sym=None):
+    def has_cmp(atoms, op, lname, rname=None, rconst=None, fb_=fb, sym=None, owner=None):
         for a in atoms:
             if a[0] != "cmp":
                 continue
@@ -417,6 +453,8 @@ def d4(fb, chk, tag):
                     continue
                 if _lname(x) != lname:
                     continue
+                if owner is not None and _owner(x) != owner:
+                    continue     # a fact about the same field of ANOTHER value (an element of a different traversal)
                 if rname is not None and _lname(y) == rname:
                     return True
                 if rconst is not None and const_eval(fb_, sym, y) == rconst:
@@ -454,8 +492,10 @@ def d4(fb, chk, tag):
                       "set_mem_table can send more than %d regions (exact bound required)" % wire.MAX_FDS, f.loc(t["line"]))
         for bb, t, c in sites(f, name="append"):
             atoms = m.atoms_at(bb)
-            ok1 = has_cmp(atoms, "Ne", "memory_size", rconst=0, sym=m.sym)
-            ok2 = has_cmp(atoms, "Ge", "mmap_handle", rconst=0, sym=m.sym)
+            # the element this append sends: the value whose `mmap_handle` is the descriptor argument
+            own = _owner(m.sym.arg_terms(bb)[-1])
+            ok1 = has_cmp(atoms, "Ne", "memory_size", rconst=0, sym=m.sym, owner=own)
+            ok2 = has_cmp(atoms, "Ge", "mmap_handle", rconst=0, sym=m.sym, owner=own)
             if not (ok1 and ok2):
                 # validation in a pass of its own: every element of `regions` is tested in a loop whose failing edges cannot
                 # reach the append / the send (they return the error); the append loop runs over the same list afterwards
@@ -570,6 +610,18 @@ def d9(fb, chk, tag=""):
 
 def _flip(op):
     return {"Lt": "Gt", "Gt": "Lt", "Le": "Ge", "Ge": "Le", "Eq": "Eq", "Ne": "Ne"}[op]
+
+
+def _owner(t):
+    """The value a field read belongs to (references and casts peeled), as text; None when `t` is not a field read."""
+    while t[0] in ("ref", "deref", "cast"):
+        t = t[1]
+    if t[0] != "field":
+        return None
+    b = t[1]
+    while b[0] in ("ref", "deref"):
+        b = b[1]
+    return show(b)
 
 
 def _lname(t):
